@@ -24,7 +24,7 @@ C_FUNCS = [
     ("tables.c", "tsk_table_collection_check_tree_integrity"),
 ]
 LEMMAS = ["lemmas.tree_links:edits_preserve_wellformedness"]
-BOUNDED = [{"name": "trees_vs_edge_table", "module": "standins.c01_trees", "timeout": 900}]
+BOUNDED = [{"name": "trees_vs_edge_table", "module": "standins.c01_trees", "timeout": 900, "asan": "thorough"}]
 UNVERIFIED = ["tsk_tree_insert_edge/remove_edge (sample-count propagation, root maintenance)",
               "tsk_tree_update_sample_lists, tsk_tree_clear, tsk_tree_next/prev (edit loops)",
               "tsk_treeseq_init_trees (breakpoints)", "traversals, mrca, depth (bounded only)",
